@@ -194,3 +194,43 @@ pub fn case(rng: &mut Rng) -> String {
     }
     out
 }
+
+/// C17R: `remove_axes` on a tree that carries cached feasibility states (after `infeasible_elimination`): the dropped
+/// columns pin the removed coordinates to 0, every path condition changes, so every cached state must be reset
+pub fn case_remove_axes(rng: &mut Rng) -> String {
+    let mut out = String::from("C17R ");
+    let n = 2 + rng.below(3);
+    let tp = TreeParams { in_dim: n, out_dim: 1 + rng.below(2), max_depth: 3, partial16: *rng.pick(&[0, 0, 3]), holes: false, palette: 0 };
+    let mut g: AffTree<2> = rand_tree(rng, &tp);
+    let swept = rng.chance(3, 4);
+    if swept {
+        if catch_unwind(AssertUnwindSafe(|| { g.infeasible_elimination(); })).is_err() {
+            return String::from("C17R sweep-panic");
+        }
+    }
+    let mut mask = Vec::new();
+    for _ in 0..n {
+        mask.push(rng.chance(1, 2));
+    }
+    if mask.iter().all(|k| !*k) {
+        mask[0] = true;
+    }
+    if mask.iter().all(|k| *k) {
+        mask[n - 1] = false;
+    }
+    write!(out, "{} ", n).unwrap();
+    for k in &mask {
+        write!(out, "{} ", if *k { 1 } else { 0 }).unwrap();
+    }
+    enc::afftree(&mut out, &g);
+    let t = build(|| {
+        let mut s = g.clone();
+        s.remove_axes(&Array1::from_vec(mask.clone())).unwrap();
+        s
+    });
+    let kept = mask.iter().filter(|k| **k).count();
+    let pts: Vec<Array1<f64>> = (0..8).map(|_| rand_int_vec(rng, kept)).collect();
+    finish(&mut out, t, &pts);
+    out
+}
+
